@@ -22,6 +22,33 @@ CLAIMED.update({
              'by running it over ALL partitions x ALL chunk sizes of every short text (and byte partitions of multi-byte samples) and comparing records, header and warnings.',
         note='Trusted: Lean kernel + standard axioms; TextIOWrapper decoding/universal newlines are modelled (CR/CRLF -> LF), tied dynamically; a read returns "" only at EOF.',
         ref='DESIGN.md section 7, C12'),
+    'C01': dict(
+        text='Master theorem run_select_eq_spec / C01_select_where_exact: for ALL tables and ALL programs (every expression an arbitrary function of the record) the engine model outputs exactly '
+             'the concatenation, in input order, of what each joined record contributes (nothing if WHERE is falsy, one record per UNNEST element, otherwise its projection), by a bridge theorem main-loop <-> '
+             'emissions and a chain-algebra theorem. The real rbql.query is tied on every <=2x2 table over {None,"",x,"x;y"} x a battery of item-kind combinations plus seeded random cases, including error outcomes.',
+        note='Trusted: Lean kernel + standard axioms; evaluation of user expressions by CPython (opaque functions in the theorems); the model/engine tie is the correspondence.',
+        ref='DESIGN.md section 7, C01'),
+    'C02': dict(
+        text='C02_sort_dedup_truncate: for every chain shape the engine model outputs take-n(dedup(stable-sort(emissions))); C02_bound_is_take; first-occurrence and multiplicity lemmas; writer protocol. '
+             'Real engine tied on tie-heavy tables x all clause combinations with the pulled-record count observed, plus metamorphic oracles (bound = prefix, DESC = reverse) and a never-ending iterator.',
+        note='Hypotheses: comparable ORDER BY keys, hashable DISTINCT rows, no failing evaluation for the unbounded query. Stable-sort properties and the early-stop (tail irrelevance) theorem are in Proofs/OrderAndStop.lean when present.',
+        ref='DESIGN.md section 7, C02'),
+    'C04': dict(
+        text='C04_lookup_eq_filter: the hash-join map equals filtering B by key (B order, record numbers, null-record width) for ALL tables and key lists; expansion lemmas for INNER/LEFT/STRICT; '
+             'downstream clauses and UPDATE see the expansion (run = spec over expandRecord). Real engine tied on duplicate-key / empty / ragged table pairs x five join keywords x 1..3 key pairs incl. NR/bNR.',
+        note='Trusted: Lean kernel + standard axioms; Python == on keys modelled as structural equality of values.',
+        ref='DESIGN.md section 7, C04'),
+    'C05': dict(
+        text='C05_update_refines_spec (run = updateSpec incl. the error reported), same length/order/width, unchanged when WHERE false or no partner, only assigned fields change, right-hand sides see the original '
+             'record (simultaneous assignment; swap), NU counts updated records, missing field names the record. KNOWN FINDING D14: UPDATE ... LEFT JOIN updates partner-less records (counterexample theorem; pinned witness).',
+        note='Trusted: Lean kernel + standard axioms. The property is false of the code for LEFT JOIN (D14, recorded in known_findings.json, not repaired).',
+        ref='DESIGN.md section 7, C05'),
+    'C14': dict(
+        text='C14_first_offending_record / C14_emissions_first_failure: the error reported is that of the FIRST record (A-major, B order) whose JOIN key, WHERE, select list or ORDER BY evaluation fails, carrying its number and field; '
+             'UPDATE first error with the exact prefix written; join-build error before any write; field-count and None warnings iff. Real code tied with a poisoned record at every position x every clause, static-error battery '
+             '(no write before a parsing error), CSV anomaly files.',
+        note='Trusted: Lean kernel + standard axioms; host exception texts are classified, not modelled; parsing errors detected from the query text are checked on the implementation directly (no parser model yet).',
+        ref='DESIGN.md section 7, C14'),
     'C10': dict(
         text='Line level: C10_line_roundtrip_quoted (every good delimiter, single- or multi-character; no field condition for one-character delimiters), simple and monocolumn round trips; '
              'file level: C10_file_lines_roundtrip for LF/CRLF/CR; lossy output warns (C10_lossy_simple_warns, C10_none_sets_flag); C10_overlap_counterexample shows why multi-character '
